@@ -516,9 +516,14 @@ pub fn mutate(rng: &mut Rng, s: &Synth, out: &mut Vec<String>) {
                 let pos = rng.below(leafs.len() as u64 + 1) as usize;
                 leafs.insert(pos, x);
             }
-            3 => { // repeated index, conflicting digest
+            3 => { // repeated index, conflicting digest (often a SPECIAL one: all-zero = Digest::default(), the root, another leaf)
                 let mut x = *rng.pick(&leafs);
-                x.1 = rand_digest(rng);
+                x.1 = match rng.below(6) {
+                    0 | 1 => Digest::default(),
+                    2 => root,
+                    3 => rng.pick(&leafs).1,
+                    _ => rand_digest(rng),
+                };
                 let pos = rng.below(leafs.len() as u64 + 1) as usize;
                 leafs.insert(pos, x);
             }
@@ -548,7 +553,7 @@ pub fn mutate(rng: &mut Rng, s: &Synth, out: &mut Vec<String>) {
             }
             9 => { // corrupted leaf digest
                 let pos = rng.below(leafs.len() as u64) as usize;
-                leafs[pos].1 = rand_digest(rng);
+                leafs[pos].1 = if rng.coin(1, 4) { Digest::default() } else { rand_digest(rng) };
             }
             10 => if !auth.is_empty() { // corrupted node
                 let pos = rng.below(auth.len() as u64) as usize;
